@@ -259,6 +259,11 @@ def check_float_division(ck, rule, fn, small_names=None, mpf_params=(), nonraw_p
             return True
         if isinstance(node, ast.Name):
             return node.id in raw_names
+        if isinstance(node, ast.Attribute) and isinstance(node.value, ast.Name) and \
+                node.value.id in ('self', 'cls') and fn.cls is not None:
+            # a field of a request / value object: holds what the constructor was given, i.e.
+            # one of the 32-bit inputs (a derived quantity kept in a field is not seen here)
+            return True
         if isinstance(node, ast.UnaryOp) and isinstance(node.op, (ast.USub, ast.UAdd)):
             return is_raw(node.operand)
         if isinstance(node, ast.Call) and isinstance(node.func, ast.Name) and \
@@ -338,6 +343,9 @@ def is_raw_probe(node, small):
         return True
     if isinstance(node, ast.Name):
         return node.id in small
+    if isinstance(node, ast.Attribute) and isinstance(node.value, ast.Name) and \
+            node.value.id in ('self', 'cls'):
+        return True
     if isinstance(node, ast.UnaryOp) and isinstance(node.op, (ast.USub, ast.UAdd)):
         return is_raw_probe(node.operand, small)
     if isinstance(node, ast.Call) and isinstance(node.func, ast.Name) and \
